@@ -12,26 +12,26 @@ namespace Pj
 theorem C03_forward (env : Env) (f0 : Uid → Fields) (res0 : List (Option Nat × Cal)) (o : Output)
     (h : forwardCalc env f0 res0 = .ok o) :
     c03Positive o = true ∧ c03OwnResource env o = true ∧ c03CapacityDay o = true ∧ c03NoOverAlloc env o = true := by
-  sorry
+  exact forwardCalc_c03 env f0 res0 o h
 
 theorem C03_backward (env : Env) (f0 : Uid → Fields) (res0 : List (Option Nat × Cal)) (o : Output)
     (h : backwardCalc env f0 res0 = .ok o) :
     c03Positive o = true ∧ c03OwnResource env o = true ∧ c03CapacityDay o = true ∧ c03NoOverAlloc env o = true := by
-  sorry
+  exact backwardCalc_c03 env f0 res0 o h
 
 /-- every resource named by a member task is present in the result: the supplied ones first, in the given order,
     then one default (Monday-Friday, 8 units: the extracted DEFAULT_CALENDAR) per missing name -/
 theorem C03_resources_forward (env : Env) (f0 : Uid → Fields) (res0 : List (Option Nat × Cal)) (o : Output)
     (hf : env.flagsOK) (h : forwardCalc env f0 res0 = .ok o) : c03Resources env res0 o = true := by
-  sorry
+  exact forwardCalc_c03Resources env f0 res0 o hf h
 
 theorem C03_resources_backward (env : Env) (f0 : Uid → Fields) (res0 : List (Option Nat × Cal)) (o : Output)
     (hf : env.flagsOK) (h : backwardCalc env f0 res0 = .ok o) : c03Resources env res0 o = true := by
-  sorry
+  exact backwardCalc_c03Resources env f0 res0 o hf h
 
 /-- the default calendar really is Monday-Friday 8 (ties the extracted constants to the statement) -/
 theorem C03_default_calendar :
     defaultCal = .weekly none none [8, 8, 8, 8, 8, 0, 0] := by
-  sorry
+  rfl
 
 end Pj
